@@ -69,11 +69,24 @@ func c19Innermost(root *an.Func, n ast.Node) *an.Func {
 // that name it saw: more than one variable means the name is shadowed and a
 // rule that reads the name sees only one of them.
 func c19LocalDefs(fn *an.Func, name string) (objs []types.Object, defs []c19LocalDef) {
+	return c19DefsIn(fn, fn.Body, func(id *ast.Ident, _ types.Object) bool { return id.Name == name })
+}
+
+// c19DefsIn is c19LocalDefs for the variables selected by match, looking at
+// the statements below body only.
+func c19DefsIn(fn *an.Func, body ast.Node, match func(*ast.Ident, types.Object) bool) (objs []types.Object, defs []c19LocalDef) {
 	info := fn.Info()
 	seen := map[types.Object]bool{}
 	varOf := func(e ast.Expr) types.Object {
 		id, ok := ast.Unparen(e).(*ast.Ident)
-		if !ok || id.Name != name {
+		if !ok {
+			return nil
+		}
+		if o := info.Defs[id]; o != nil {
+			if !match(id, o) {
+				return nil
+			}
+		} else if !match(id, info.Uses[id]) {
 			return nil
 		}
 		o := info.Defs[id]
@@ -90,7 +103,7 @@ func c19LocalDefs(fn *an.Func, name string) (objs []types.Object, defs []c19Loca
 	add := func(o types.Object, tok string, rhs ast.Expr, n ast.Node) {
 		defs = append(defs, c19LocalDef{Tok: tok, Rhs: rhs, Node: n, Fn: c19Innermost(root, n), Obj: o})
 	}
-	ast.Inspect(fn.Body, func(n ast.Node) bool {
+	ast.Inspect(body, func(n ast.Node) bool {
 		switch x := n.(type) {
 		case *ast.Ident:
 			if o := varOf(x); o != nil && !seen[o] {
